@@ -43,7 +43,7 @@ DQESCS = ["\\$", "\\\\", '\\"', "\\`"]
 CMDS = {"printf 'a b\\n\\n'": "a b\n\n", "printf ' a  b '": " a  b ", "printf '*'": "*", "printf ''": "",
         "printf 'x'": "x", "printf '\\n'": "\n", "printf 'a\\n\\nb\\n'": "a\n\nb\n", "printf '[ab] ?'": "[ab] ?"}
 ARITH = {"1+2": "3", "7": "7", "10*10": "100"}
-SUBWORDS = ["", "d", "a b", "'a b'", '"a b"', "$y", '"$y"', "*", "a*", " ", "' '", "x y", "\\*", '""', "''", "$e", "b"]
+SUBWORDS = ["$@", "\"$@\"", "$*", "", "d", "a b", "'a b'", '"a b"', "$y", '"$y"', "*", "a*", " ", "' '", "x y", "\\*", '""', "''", "$e", "b"]
 SCALARS = ["x", "y", "e", "u"]
 
 
@@ -268,6 +268,15 @@ def classify(c, cr, ref):
     return None
 
 
+def list_op_form(c):
+    """a ${p op w} whose p is a list ($@ $* ${a[@]} ${a[*]}) or whose w contains a list expansion"""
+    for p in X.flat(c.word):
+        if p[0] == "P" and p[1][0] in ("d", "a"):
+            if p[1][2][0] in ("@", "*", "R", "S") or any(t in p[1][3] for t in ("$@", "$*", "[@]", "[*]")):
+                return True
+    return False
+
+
 def bracket_across(c):
     """a top-level literal piece leaves a [ unclosed and a later top-level literal piece has a ]"""
     open_seen = False
@@ -420,10 +429,13 @@ def evaluate(ctx, cases, bash_all=False, bash_sample=1500):
         svb["compared"] += 1
         if sr != b and bracket_across(c):
             svb["glob_matching_not_specified_here"] = svb.get("glob_matching_not_specified_here", 0) + 1
+        elif sr != b and list_op_form(c):
+            # list expansions inside ${..op..}: the specification does not claim bash's (idiosyncratic) behaviour
+            svb["list_operator_forms_not_specified"] = svb.get("list_operator_forms_not_specified", 0) + 1
         else:
             svb["spec_eq_bash" if sr == b else "spec_ne_bash"] += 1
         svb["code_eq_bash" if cr == b else "code_ne_bash"] += 1
-        if sr != b and not bracket_across(c) and len(spec_wrong) < 40:
+        if sr != b and not bracket_across(c) and not list_op_form(c) and len(spec_wrong) < 40:
             spec_wrong.append({"input": describe(c), "spec": sr, "bash": b, "code": cr})
         if cr != b:
             v = {"input": describe(c), "why": "bash gives %r, code gave %r (spec %r)" % (b, cr, sr),
